@@ -764,6 +764,9 @@ class C03(Check):
         res = []
         for c, o, out in zip(cases, obs, outs):
             r = unsx(out)
+            if len(r) >= 5 and r[4] in (0, 1) and getattr(self, "_report", None) is not None:
+                key = "cases_within_theorem_hypotheses" if r[4] == 1 else "cases_outside_theorem_hypotheses"
+                self._report["extra"][key] = self._report["extra"].get(key, 0) + 1
             res.append((c, o, r[0], names(r[2])))
         return res
 
@@ -945,6 +948,7 @@ class C03(Check):
         return None
 
     def extra_checks(self, tier, rng, report):
+        self._report = report
         if getattr(self, "_early_fail", None) is not None:
             report["impl_failures"] += 1
             report.setdefault("extra_failing", []).append(self._early_fail)
